@@ -1,10 +1,10 @@
 #!/bin/bash
-# usage: dev_try.sh <patch.diff> <PROP>...   dev-time: applies a patch to a private worktree (/tmp/wt-dev, HEAD of /repo)
+# usage: dev_try.sh <patch.diff> <PROP>...   dev-time: applies a patch to a private worktree (/tmp/${DEVWT:-wt-dev}, HEAD of /repo)
 # and runs the dev build of the checker (/verif/bin/bv-dev) against it; /repo itself is not touched.
 patch=$1; shift
-[ -d /tmp/wt-dev ] || git -C /repo worktree add -q --detach /tmp/wt-dev HEAD
-mkdir -p /tmp/verif-dev/evidence; ln -sfn /verif/checker /tmp/verif-dev/checker; cp /verif/known-findings.json /tmp/verif-dev/
-cd /tmp/wt-dev && git checkout -q --detach $(git -C /repo rev-parse HEAD) && git checkout -q -- . && git clean -fdq
+[ -d /tmp/${DEVWT:-wt-dev} ] || git -C /repo worktree add -q --detach /tmp/${DEVWT:-wt-dev} HEAD
+mkdir -p /tmp/verif-${DEVWT:-wt-dev}/evidence; ln -sfn /verif/checker /tmp/verif-${DEVWT:-wt-dev}/checker; cp /verif/known-findings.json /tmp/verif-${DEVWT:-wt-dev}/
+cd /tmp/${DEVWT:-wt-dev} && git checkout -q --detach $(git -C /repo rev-parse HEAD) && git checkout -q -- . && git clean -fdq
 [ "$patch" != "-" ] && { git apply $patch || { echo "patch does not apply"; exit 2; }; }
-for p in "$@"; do /verif/bin/bv-dev -repo /tmp/wt-dev -verif /tmp/verif-dev -prop $p -tier quick 2>&1 | grep -E "violated|undecided|VIOLATION| quick:" | cut -c1-420; done
+for p in "$@"; do /verif/bin/bv-dev -repo /tmp/${DEVWT:-wt-dev} -verif /tmp/verif-${DEVWT:-wt-dev} -prop $p -tier quick 2>&1 | grep -E "violated|undecided|VIOLATION| quick:" | cut -c1-420; done
 git checkout -q -- .
